@@ -148,7 +148,7 @@ def gen_diskdump(rng, work, tag):
             "desc": "diskdump %d pages flat=%s split=%d" % (npages, flat, nsplit)}
 
 
-def gen_elf(rng, work, tag):
+def gen_elf(rng, work, tag, straddle=None):
     """ELF64 x86_64 core; LOAD segments with distinct virtual and physical
     layouts (virtual order differs from physical order), memsz > filesz, holes,
     segments that do not start on a page boundary.  Overlapping segments are
@@ -185,7 +185,12 @@ def gen_elf(rng, work, tag):
             pfn += 1
         segs.append((p, v, filesz, memsz))
         off += filesz
-        phys = ((p + memsz + PAGE - 1) // PAGE) * PAGE + rng.choice([0, 0, PAGE, 3 * PAGE])
+        if straddle if straddle is not None else rng.random() < 0.3:
+            # the next segment starts in the page in which this one ends: that page straddles
+            # two (or more) LOAD segments and is assembled by elf_read_page through the page cache
+            phys = p + memsz + rng.choice([0, 0x100, 0x300])
+        else:
+            phys = ((p + memsz + PAGE - 1) // PAGE) * PAGE + rng.choice([0, 0, PAGE, 3 * PAGE])
     data = os.path.join(work, tag + ".data")
     open(data, "w").write("\n".join(lines) + "\n")
     f = os.path.join(work, tag + ".dump")
@@ -251,7 +256,7 @@ def hexlines(b):
     return [" ".join("%02x" % x for x in b[i:i + 32]) for i in range(0, len(b), 32)]
 
 
-def gen_diskdump_pt(rng, work, tag, far=False):
+def gen_diskdump_pt(rng, work, tag, far=False, excl=False):
     """x86_64 Linux diskdump with a real 4-level page table in the dumped memory
     (root found through VMCOREINFO SYMBOL(init_level4_pgt) and phys_base = 0), so
     that KVADDR reads in the vmalloc range walk the tables through addrxlat's
@@ -319,7 +324,8 @@ def gen_diskdump_pt(rng, work, tag, far=False):
             lines += page_lines(rng, pfn)
         else:
             # a table page may be excluded from the dump (walk fails, or reads zeroes with zero_excluded)
-            m = "exclude" if (pfn >= 6 and not far and rng.random() < 0.1) else rng.choice(["raw", "zlib"])
+            m = "exclude" if (pfn >= 6 and not far and (rng.random() < 0.1 or (excl and pfn == 6))) \
+                else rng.choice(["raw", "zlib"])
             lines.append("@0x%x %s" % (pfn * PAGE, m))
             lines += hexlines(pages[pfn])
         kinds[pfn] = m
@@ -401,6 +407,15 @@ def gen_diskdump_split_never(rng, work, tag):
             return d
 
 
+def gen_diskdump_pt_excl(rng, work, tag):
+    """Page tables with an excluded (unreadable) PTE page: a translated read fails there; the
+    history then sets file.zero_excluded and repeats the reads (gen_history): the failed
+    page-table read must not stay in libaddrxlat's read cache."""
+    d = gen_diskdump_pt(rng, work, tag, excl=True)
+    d["fmt"] = "diskdump-pt-excl"
+    return d
+
+
 def gen_diskdump_pt_far(rng, work, tag):
     return gen_diskdump_pt(rng, work, tag, far=True)
 
@@ -413,7 +428,7 @@ def gen_diskdump_bigmap(rng, work, tag):
     return d
 
 
-GENS = {"diskdump": gen_diskdump, "diskdump-pt": gen_diskdump_pt, "diskdump-pt-far": gen_diskdump_pt_far,
+GENS = {"diskdump": gen_diskdump, "diskdump-pt": gen_diskdump_pt, "diskdump-pt-far": gen_diskdump_pt_far, "diskdump-pt-excl": gen_diskdump_pt_excl,
         "diskdump-bigmap": gen_diskdump_bigmap, "elf": gen_elf, "lkcd": gen_lkcd,
         "lkcd-faroff": gen_lkcd_faroff, "sadump": gen_sadump,
         "diskdump-split-never": gen_diskdump_split_never}
@@ -450,6 +465,12 @@ def gen_history(rng, d, nops):
             a += d.get("vbase", {}).get(2, 0)
         return a
 
+    if d["fmt"] == "diskdump-pt-excl":
+        va = list(d["vaddrs"])
+        rng.shuffle(va)
+        reads = ["R:2:%x:8" % (a + rng.choice([0, 8, 0xff8])) for a in va[:12]]
+        tail = [o for o in gen_history(rng, dict(d, fmt="diskdump-pt"), max(nops - 8, 2)) if o[0] not in "ZM"]
+        return reads + ["Z:1"] + reads + tail
     if d["fmt"] == "diskdump-bigmap":
         # file.mmap_policy = never, then the lazily read memory.pagemap: its bitmap is one chunk of
         # more pages than the read(2) fallback cache has slots
